@@ -301,10 +301,13 @@ Proof.
   destruct (cli_of asg f); [tauto|]. destruct (env_of w f); [tauto|]. destruct (json_of ov f); tauto.
 Qed.
 
-Lemma set_T_ext o1 o2 k t : (forall k t, o1 k t = o2 k t) -> set_T o1 k t = set_T o2 k t.
-Proof. intros H. unfold set_T. destruct t; [reflexivity|]. destruct (in_model k (n :: t)); [destruct k; auto | apply H]. Qed.
+Lemma set_T_ext o1 o2 k t : oracle_agree o1 o2 -> set_T o1 k t = set_T o2 k t.
+Proof.
+  intros [Hs H]. unfold set_T. destruct t; [reflexivity|].
+  destruct (in_model k (n :: t)); [destruct k; try rewrite Hs; auto | apply H].
+Qed.
 
-Lemma add_fields_ext o1 o2 : (forall k t, o1 k t = o2 k t) ->
+Lemma add_fields_ext o1 o2 : oracle_agree o1 o2 ->
   forall fields fs st, add_fields o1 fields fs st = add_fields o2 fields fs st.
 Proof.
   intros H. induction fields as [|f r IH]; intros fs st; cbn [add_fields]; [reflexivity|].
@@ -314,7 +317,7 @@ Proof.
 Qed.
 
 Lemma sources_independent w1 w2 fs asg1 asg2 ov1 ov2 f v1 v2 :
-  (forall k t, w_set w1 k t = w_set w2 k t) ->
+  oracle_agree (w_set w1) (w_set w2) ->
   winner_holds w1 asg1 ov1 f v1 -> winner_holds w2 asg2 ov2 f v2 ->
   top_source (cli_of asg1 f) (env_of w1 f) (json_of ov1 f) = top_source (cli_of asg2 f) (env_of w2 f) (json_of ov2 f) ->
   In f fs -> v1 = v2.
@@ -516,7 +519,7 @@ Proof.
 Qed.
 
 Lemma run_sources_independent : forall w1 w2 fields args1 args2 s1 s2 rest1 rest2,
-  (forall k t, w_set w1 k t = w_set w2 k t) ->
+  oracle_agree (w_set w1) (w_set w2) ->
   run w1 fields args1 = RParse (POk s1 rest1) -> run w2 fields args2 = RParse (POk s2 rest2) ->
   exists fs st0 asg1 asg2 ov1 ov2,
     new_flag_set (w_set w1) fields = NOk fs st0
